@@ -241,7 +241,7 @@ def run_dist(r, case, g):
                 for GN in (80, 112):
                     res[GN] = _grid3(lp, s, GN)
                 tot_lo, tot_hi = res[80][0], res[112][0]
-                if abs(tot_lo - tot_hi) > 3e-3 or abs(tot_hi - 1) > 1e-2 or _grid3.cell_mass > 0.02:
+                if abs(tot_lo - tot_hi) > 3e-3 or abs(tot_hi - 1) > 5e-3 or _grid3.cell_mass > 0.02:
                     r.count("ks_undecided")      # under-resolved (normalisation itself is judged above)
                 else:
                     for k in range(3):
@@ -251,7 +251,7 @@ def run_dist(r, case, g):
                         r.count("sampling_checks")
                         tot_ = (m * wk).sum()
                         Dks = q.ks_distance(s[:, k], torch.cat([xk, xk[-1:] + 1.0]), torch.cat([cdf, tot_[None]]))
-                        crit = q.ks_crit(NS) + 3e-3 + abs(tot_hi - 1)     # grid-marginal resolution
+                        crit = q.ks_crit(NS) + 3e-3 + 3 * abs(tot_hi - 1)     # grid-marginal resolution
                         r.worst("ks/crit", Dks / crit)
                         if Dks > crit:
                             r.viol("samples_not_from_density", "%s samples do not follow its own density" % label, ks=Dks,
